@@ -161,7 +161,7 @@ pub fn one_ingest() -> Step {
     unsafe { TAMPERED = false; INSERTS = 0; }
     // stored latest entry of the log (author 0, L0)
     let has_past = sym::any_bool();
-    let past_seq = sym::any_u32();
+    let past_seq = sym::any_u32_searchable();
     sym::assume(past_seq < u32::MAX); // `past.seq_num + 1` overflows: outside the claim (2^32 entries)
     let mut past = Header::<()> {
         version: 1,
@@ -178,7 +178,7 @@ pub fn one_ingest() -> Step {
     // incoming operation
     let same_author = sym::any_bool();
     let same_log = sym::any_bool();
-    let seq = sym::any_u32();
+    let seq = sym::any_u32_searchable();
     let bl_is_pred = sym::any_bool();
     let other = sym::any_bytes::<32>();
     let other_hash = Hash::from_bytes(other);
@@ -344,6 +344,21 @@ pub fn ingest_validates_first_and_rejects_cleanly() {
     if s.result != Some(true) {
         vassert!(s.committed.is_none(), "C01.ingest-reject-no-trace: a rejected or already known operation leaves the store unchanged");
     }
+}
+
+/// Native search fallback (when Kani's trace is too large for concrete playback): the harness' input
+/// domain with sequence numbers in 0..4 is enumerated against the natively compiled real code.
+#[cfg(not(kani))]
+pub fn search(name: &str) -> bool {
+    let f: fn() = match name {
+        "ingest::ingest_accepts_only_extensions" => ingest_accepts_only_extensions,
+        "ingest::ingest_accepts_extensions" => ingest_accepts_extensions,
+        "ingest::ingest_never_below_stored_height" => ingest_never_below_stored_height,
+        "ingest::ingest_validates_first_and_rejects_cleanly" => ingest_validates_first_and_rejects_cleanly,
+        _ => return false,
+    };
+    sym::search(f, 200_000);
+    true
 }
 
 pub fn dispatch(name: &str) -> bool {
